@@ -47,6 +47,17 @@ def c13_cases(tier, seed):
                     steps.append({"op": "setgrad", "args": [1 + k], "g": tensor(d, [F(((5 * k + i) % 13) - 6, 2) for i in range(prod(d))])})
             steps.append({"op": "update", "args": list(range(1, len(shp) + 1)), "lr": sc(rnd.choice([F(1, 2), F(3, 4), -2]))})
             cases.append(steps)
+    # a clone of a parameter later in the same list (it sees the slot already emptied: untouched), and gradients
+    # whose dims differ from the parameter's but have the same element count
+    for d, gd in (([2, 2], [4]), ([3], [1, 3]), ([2, 1, 2], [2, 2]), ([4], [2, 2])):
+        n = prod(d)
+        steps = [RESET, leaf(1, d, [k + 1 for k in range(n)], trk=True), leaf(2, [2], [5, -5], trk=True),
+                 {"op": "clone", "args": [1], "res": 3},
+                 {"op": "setgrad", "args": [1], "g": tensor(gd, [F(k - 1, 2) for k in range(n)])},
+                 {"op": "setgrad", "args": [2], "g": tensor([2], [1, 2])},
+                 {"op": "update", "args": [1, 2, 3], "lr": sc(F(1, 2))},
+                 {"op": "update", "args": [3, 2, 1], "lr": sc(F(1, 2))}]
+        cases.append(steps)
     # gradients deposited by real passes; frozen parameters in between
     for _ in range(400 if tier == "thorough" else 60):
         n = rnd.randint(2, 4)
